@@ -243,13 +243,20 @@ func (s *Store) Push(ctx context.Context, expected ocispec.Descriptor, content i
 		return err
 	}
 
+	// index predecessors as soon as the content is stored: a failure to restore a
+	// duplicated file below must not leave stored content out of the graph (a
+	// retry would be refused with ErrAlreadyExists and never index it).
+	if err := s.graph.Index(ctx, s, expected); err != nil {
+		return err
+	}
+
 	if !s.ForceCAS {
 		if err := s.restoreDuplicates(ctx, expected); err != nil {
 			return fmt.Errorf("failed to restore duplicated file: %w", err)
 		}
 	}
 
-	return s.graph.Index(ctx, s, expected)
+	return nil
 }
 
 // push pushes the content, matching the expected descriptor.
